@@ -2,6 +2,7 @@ package gltf
 
 import (
 	"image/color"
+	"reflect"
 
 	"github.com/EliCDavis/polyform/math/quaternion"
 	"github.com/EliCDavis/polyform/math/trs"
@@ -155,6 +156,15 @@ func (pt *PolyformTexture) equal(other *PolyformTexture) bool {
 
 	if pt.URI != other.URI {
 		return false
+	}
+
+	if len(pt.Extensions) != len(other.Extensions) {
+		return false
+	}
+	for i, ext := range pt.Extensions {
+		if !reflect.DeepEqual(ext, other.Extensions[i]) {
+			return false
+		}
 	}
 
 	if pt.Sampler == other.Sampler {
